@@ -401,7 +401,7 @@ func (p *Prog) everyChain(root *ssa.Function, in ssa.Instruction, pred func(Guar
 
 // canReachCut is canReach with, additionally, CFG edges removed: cut(b, i) reports that the edge
 // from block b to its i-th successor must not be taken (e.g. the "x == nil" side of a test).
-func canReachCut(a, b ssa.Instruction, avoid map[ssa.Instruction]bool, cut func(from *ssa.BasicBlock, succ int) bool) bool {
+func canReachCutA7(a, b ssa.Instruction, avoid map[ssa.Instruction]bool, cut func(from *ssa.BasicBlock, succ int) bool) bool {
 	ab := a.Block()
 	ai := instrIndex(a)
 	for i := ai + 1; i < len(ab.Instrs); i++ {
